@@ -1135,6 +1135,20 @@ def keywords_to_positional(tree):
     mod_sigs = {st.name: [x.arg for x in st.args.args] for st in tree.body
                 if isinstance(st, ast.FunctionDef) and plain(st) and counts.get(st.name) == 1}
 
+    # constructors of the module's own classes: the parameters of the class's own __init__
+    cls_count = {}
+    for st in ast.walk(tree):
+        if isinstance(st, ast.ClassDef):
+            cls_count[st.name] = cls_count.get(st.name, 0) + 1
+    for st in tree.body:
+        if isinstance(st, ast.ClassDef) and cls_count.get(st.name) == 1 and not st.keywords and not st.decorator_list and st.name not in mod_sigs and \
+                not any(isinstance(m, ast.FunctionDef) and m.name == '__new__' for m in st.body):
+            inits = [m for m in st.body if isinstance(m, ast.FunctionDef) and m.name == '__init__']
+            if len(inits) == 1 and plain(inits[0]) and inits[0].args.args and inits[0].args.args[0].arg == 'self':
+                mod_sigs[st.name] = [x.arg for x in inits[0].args.args[1:]]
+    rebound = {x.id for x in ast.walk(tree) if isinstance(x, ast.Name) and isinstance(x.ctx, (ast.Store, ast.Del))}
+    mod_sigs = {k: v for k, v in mod_sigs.items() if k not in rebound}
+
     class T(ast.NodeTransformer):
         def __init__(self, meth_sigs):
             self.meth = meth_sigs
